@@ -35,6 +35,7 @@ Next ==
        [] ev.e = "unclaimed" -> G("UnclaimSawAllSet", ev.t, ev.all) /\ UNCHANGED <<owned, blocked, pending>>
        [] ev.e = "final" ->
             /\ G("AllFreeAtEnd", Cardinality(WordsBits(ev.words) \ blocked), WordsBits(ev.words) = blocked \cup DOMAIN owned)
+            /\ G("NothingBehindBitmap", 0, \A i \in 1..Len(ev.behind) : ev.behind[i] = 0)
             /\ G("NothingHeldAtEnd", Cardinality(DOMAIN owned), DOMAIN owned = {})
             /\ UNCHANGED <<owned, blocked, pending>>
        [] ev.e = "crash" -> G("NoCrash", ev.sig, FALSE) /\ UNCHANGED <<owned, blocked, pending>>
